@@ -641,6 +641,13 @@ func (r *fzRun) viol(cs, msg string, w interface{}) {
 	r.mu.Unlock()
 }
 
+// enough: once a few violations are recorded the phase stops (every further input would cost fresh victims)
+func (r *fzRun) enough() bool {
+	r.mu.Lock()
+	defer r.mu.Unlock()
+	return r.sum.Counts["violations"] >= 5
+}
+
 func (r *fzRun) count(name string, n int64) {
 	r.mu.Lock()
 	r.sum.Counts[name] += n
@@ -744,7 +751,7 @@ func fzDirectD1(r *fzRun) {
 		every = total / a.D1Hard
 	}
 	nHard, nSoft := 0, 0
-	for i := 0; i < total; i++ {
+	for i := 0; i < total && !r.enough(); i++ {
 		rng := caseRand(a.Seed, a.Batch*10000000+i)
 		version := v.sess.communicationVersion
 		t := fzGenTmpl(rng, 5, 300, true)
@@ -861,7 +868,7 @@ func fzDirectD2(r *fzRun) {
 	if !mk() {
 		return
 	}
-	for i := 0; i < a.D2; i++ {
+	for i := 0; i < a.D2 && !r.enough(); i++ {
 		rng := caseRand(a.Seed, a.Batch*10000000+5000000+i)
 		t := fzGenTmpl(rng, 7, 300, true)
 		ids1, e1 := fzPrepareIDs(v1, &base1)
@@ -1171,7 +1178,7 @@ func fzSockS1(r *fzRun, echo *fzEcho) {
 		base = 1
 		return true
 	}
-	for i := 0; i < a.S1; i++ {
+	for i := 0; i < a.S1 && !r.enough(); i++ {
 		rng := caseRand(a.Seed, a.Batch*10000000+6000000+i)
 		t := fzGenTmpl(rng, 6, 48, true)
 		var ref [fzSlots]fzObs
@@ -1246,7 +1253,7 @@ func fzSockS1(r *fzRun, echo *fzEcho) {
 // S2: malformed inputs end only the victim
 func fzSockS2(r *fzRun, echo *fzEcho) {
 	a := r.a
-	for i := 0; i < a.S2; i++ {
+	for i := 0; i < a.S2 && !r.enough(); i++ {
 		rng := caseRand(a.Seed, a.Batch*10000000+7000000+i)
 		v, err := fzNewVictim(a.Role, a.Memfd)
 		if err != nil {
